@@ -95,6 +95,7 @@ func initC18() {
 		scenarios: []fixedScenario{
 			{name: "openum", enum: true, runs: func(tier string) int64 { return 0 }},
 			{name: "stopenum", enum: true, runs: func(tier string) int64 { return 0 }},
+			{name: "stopenum2", enum: true, runs: func(tier string) int64 { return 0 }},
 		},
 	}
 }
